@@ -175,7 +175,7 @@ func configs() []config {
 		ev = append(ev, single(honestReports(n, "X")...)...)
 		ev = append(ev, single(honestReports(n, "Z")...)...)
 		ev = append(ev, single(third(rep(last, "X", true)))...)
-		ev = append(ev, pair(lock(0, "X"), redeem(0, "Z")), pair(rep(last, "X", true), rep(last, "Z", false)))
+		ev = append(ev, pair(lock(0, "X"), redeem(0, "Z")), pair(rep(last, "X", true), rep(last, "Z", false)), pair(lock(0, "X"), rep(wit(0), "X", true)))
 		out = append(out, config{Name: fmt.Sprintf("mixed/%dw", n), N: n, Mode: "mixed", Events: ev, Quick: n != 4})
 
 		// ---- erc20: token lock and the two forms of token redeem
